@@ -247,6 +247,7 @@ impl<'a> Model<'a> {
         if self.prop == "C08" {
             let mut outcome = String::new();
             for (hi, hay) in HAYSTACKS.iter().enumerate() {
+                crate::common::beat();
                 let got = s.tree.find(hay);
                 let want = self.expected_find(&s.live, hi);
                 self.find_checks.fetch_add(1, Ordering::Relaxed);
@@ -310,6 +311,7 @@ impl<'a> Model<'a> {
             self.outcomes.insert_str(&format!("{before:?}"));
             for limit in [0u64, 1, 2, 3, 8] {
                 for level in [None, Some(0u64), Some(1), Some(2), Some(3)] {
+                    crate::common::beat();
                     let mut t = s.tree.clone();
                     t.cache(limit, level);
                     self.cache_grid_checks.fetch_add(1, Ordering::Relaxed);
